@@ -33,6 +33,12 @@ type model struct {
 	creat   map[basics.CreatableIndex]creatEntry
 	online  map[int]map[uint64]onlineEntry // full history, never pruned in the model
 	onlFB   uint64                         // largest forgetBefore passed to OnlineAccountsDelete so far
+	// hist is the pruned online-account table as each backend documents its own OnlineAccountsDelete:
+	// [0] sqlitedriver (rows with updRound < forgetBefore, run after the commit's inserts),
+	// [1] generickv (rows with round <= forgetBefore, evaluated on the transaction's begin-snapshot, i.e.
+	// without the commit's own inserts). Where the two variants differ and each backend matches its own,
+	// the difference is the known finding OnlineAccountsDelete/*, nothing else.
+	hist [2]map[int]map[uint64]onlineEntry
 	params  map[uint64]ledgercore.OnlineRoundParamsData
 	txtail  map[uint64][]byte
 	totals  map[bool]*ledgercore.AccountTotals
@@ -44,7 +50,8 @@ type model struct {
 func newModel() *model {
 	return &model{accts: map[int]trackerdb.BaseAccountData{}, res: map[resKey]trackerdb.ResourcesData{}, kv: map[string][]byte{},
 		creat: map[basics.CreatableIndex]creatEntry{}, online: map[int]map[uint64]onlineEntry{}, params: map[uint64]ledgercore.OnlineRoundParamsData{},
-		txtail: map[uint64][]byte{}, totals: map[bool]*ledgercore.AccountTotals{}, sp: map[uint64]ledgercore.StateProofVerificationContext{}}
+		txtail: map[uint64][]byte{}, totals: map[bool]*ledgercore.AccountTotals{}, sp: map[uint64]ledgercore.StateProofVerificationContext{},
+		hist: [2]map[int]map[uint64]onlineEntry{{}, {}}}
 }
 
 func (m *model) clone() *model {
@@ -68,6 +75,15 @@ func (m *model) clone() *model {
 			h[r] = e
 		}
 		n.online[k] = h
+	}
+	for i := range m.hist {
+		for k, v := range m.hist[i] {
+			h := map[uint64]onlineEntry{}
+			for r, e := range v {
+				h[r] = e
+			}
+			n.hist[i][k] = h
+		}
 	}
 	for k, v := range m.params {
 		n.params[k] = v
@@ -125,4 +141,41 @@ func sortedRounds[T any](mp map[uint64]T) []uint64 {
 	}
 	sort.Slice(rs, func(i, j int) bool { return rs[i] < rs[j] })
 	return rs
+}
+
+// latestIn returns the newest entry of a pruned table for address a with updround <= rnd.
+func latestIn(h map[int]map[uint64]onlineEntry, a int, rnd uint64) (uint64, onlineEntry, bool) {
+	var best uint64
+	var be onlineEntry
+	found := false
+	for r, e := range h[a] {
+		if r <= rnd && (!found || r > best) {
+			best, be, found = r, e, true
+		}
+	}
+	return best, be, found
+}
+
+// prune applies the documented OnlineAccountsDelete rule to a table: among an address' rows below the
+// horizon, newest first, the newest is deleted only if it is an offline (empty voting data) row; every
+// older one is deleted.
+func prune(h map[int]map[uint64]onlineEntry, fb uint64, inclusive bool) {
+	for a, rows := range h {
+		var rs []uint64
+		for r := range rows {
+			if r < fb || (inclusive && r == fb) {
+				rs = append(rs, r)
+			}
+		}
+		sort.Slice(rs, func(i, j int) bool { return rs[i] > rs[j] })
+		for i, r := range rs {
+			if d := rows[r].data; i == 0 && !d.IsVotingEmpty() {
+				continue
+			}
+			delete(rows, r)
+		}
+		if len(rows) == 0 {
+			delete(h, a)
+		}
+	}
 }
